@@ -68,6 +68,8 @@ type caseT struct {
 	// ViaNew: options left out of the New(...) call — the documented defaults (100 requests/s, burst 20, key
 	// "ip:"+ClientIP) must then apply, whatever other limiters the process has built before
 	OmitRate, OmitBurst, OmitKey bool `json:",omitempty"`
+	// Method: HTTP method of the requests of a middleware case ("" = GET)
+	Method string `json:",omitempty"`
 	// EpochAgoSec: tick 0 of this case lies that many seconds before the moment the case is run
 	// (default 0: a fixed instant in 2020). The cleanup cases need scripted times near the wall clock,
 	// because the store's cleanup compares entries with time.Now().
@@ -386,11 +388,36 @@ func (m mwObs) tokens(l *hx.Line) {
 	hdrInt(l, m.RetryAfter)
 }
 
+type methodCtx struct{}
+type xffCtx struct{}
+
+func anyMethod(r *router.Router, h router.HandlerFunc) {
+	r.GET("/", h)
+	r.HEAD("/", h)
+	r.POST("/", h)
+	r.OPTIONS("/", h)
+}
+
+// pickMethod: the limiter is specified for requests, whatever their method
+func pickMethod(r *hx.Rand) string {
+	return hx.Pick(r, []string{"GET", "GET", "GET", "HEAD", "HEAD", "POST", "OPTIONS"})
+}
+
 func serveOnce(r *router.Router, key string, ctx context.Context) (mwObs, *bool) {
 	rec := httptest.NewRecorder()
-	req := httptest.NewRequest(http.MethodGet, "/", nil)
+	method := http.MethodGet
+	if ctx != nil {
+		if m, ok := ctx.Value(methodCtx{}).(string); ok && m != "" {
+			method = m
+		}
+	}
+	req := httptest.NewRequest(method, "/", nil)
 	req.Header.Set("X-Key", key)
 	if ctx != nil {
+		if x, ok := ctx.Value(xffCtx{}).(string); ok && x != "" {
+			req.Header.Set("X-Forwarded-For", x)
+			req.Header.Set("X-Real-IP", x)
+		}
 		req = req.WithContext(ctx)
 	}
 	r.ServeHTTP(rec, req)
@@ -399,6 +426,12 @@ func serveOnce(r *router.Router, key string, ctx context.Context) (mwObs, *bool)
 	h := rec.Result().Header
 	return mwObs{Status: rec.Code, Limit: h.Values("RateLimit-Limit"), Remaining: h.Values("RateLimit-Remaining"),
 		Reset: h.Values("RateLimit-Reset"), RetryAfter: h.Values("Retry-After")}, nil
+}
+
+func commonOptsDefaultKey(headers, enforce, callback bool) ratelimit.CommonOptions {
+	o := commonOpts(headers, enforce, callback)
+	o.Key = nil // the documented default: "ip:" + ClientIP()
+	return o
 }
 
 func commonOpts(headers, enforce, callback bool) ratelimit.CommonOptions {
@@ -446,11 +479,14 @@ func (k *caseT) runMw(id string, st *hx.Stats, gen *traceGen, n int) string {
 			for i := 0; i < k.Flood; i++ {
 				cs.inner.Allow("flood-"+strconv.Itoa(i), at(0))
 			}
-			r.Use(ratelimit.WithTokenBucket(ratelimit.TokenBucket{Rate: k.Rate, Burst: k.Burst, Store: cs},
-				commonOpts(k.Headers, k.Enforce, k.Callback)))
+			co := commonOpts(k.Headers, k.Enforce, k.Callback)
+			if k.OmitKey {
+				co = commonOptsDefaultKey(k.Headers, k.Enforce, k.Callback)
+			}
+			r.Use(ratelimit.WithTokenBucket(ratelimit.TokenBucket{Rate: k.Rate, Burst: k.Burst, Store: cs}, co))
 		}
 		type cancelKey struct{}
-		r.GET("/", func(c *router.Context) {
+		anyMethod(r, func(c *router.Context) {
 			ran = true
 			if cancel, ok := c.Request.Context().Value(cancelKey{}).(context.CancelFunc); ok {
 				cancel()
@@ -486,9 +522,13 @@ func (k *caseT) runMw(id string, st *hx.Stats, gen *traceGen, n int) string {
 				c.Cancel = true
 				k.Calls[len(k.Calls)-1].Cancel = true
 			}
-			var rctx context.Context
+			rctx := context.WithValue(context.Background(), methodCtx{}, k.Method)
+			if k.OmitKey {
+				// forwarding headers from an untrusted peer must not change the default key
+				rctx = context.WithValue(rctx, xffCtx{}, "203.0.113."+strconv.Itoa(len(c.Key)%200+1)+", 10.0.0."+strconv.Itoa(i%50+1))
+			}
 			if c.Cancel {
-				cctx, cancel := context.WithCancel(context.Background())
+				cctx, cancel := context.WithCancel(rctx)
 				rctx = context.WithValue(cctx, cancelKey{}, cancel)
 			}
 			m, _ := serveOnce(r, c.Key, rctx)
@@ -528,7 +568,7 @@ func (k *caseT) runMw(id string, st *hx.Stats, gen *traceGen, n int) string {
 		}
 	}
 	l := hx.NewLine(id).Tok("M").Nat(k.Rate).Nat(k.Burst).Bool(k.Headers).Bool(k.Enforce).Bool(k.Callback)
-	if k.ViaNew && k.OmitKey {
+	if k.OmitKey {
 		// the default key: "ip:" + ClientIP() — httptest requests all come from 192.0.2.1
 		eff := make([]callT, len(k.Calls))
 		for i, c := range k.Calls {
@@ -591,6 +631,9 @@ type winReq struct {
 	Noise             bool  `json:",omitempty"` // (default-store cases) the request goes to the second limiter and is not judged
 	NextSec           bool  `json:",omitempty"` // (default-store cases) first sleep into the next wall-clock second
 	SleepMs           int   `json:",omitempty"` // sleep that long before the request
+	// ErrBefore "G"/"I": before this request ANOTHER client's request (own key, not part of the case) is served
+	// for which the store fails in GetCounts resp. Incr — a store error must not change anything for other keys
+	ErrBefore string `json:",omitempty"`
 	now               int64 // t0 in ns (filled while running)
 }
 
@@ -602,6 +645,7 @@ type opT struct {
 type winCase struct {
 	Limit, W                   int
 	Headers, Enforce, Callback bool
+	Method                     string `json:",omitempty"` // HTTP method of the requests ("" = GET)
 	// DefaultStore: two limiters configured WITHOUT a Store (each gets the package's default), same key,
 	// windows W and NoiseW, on two routes of one router; only the first limiter's requests are judged
 	DefaultStore bool `json:",omitempty"`
@@ -634,8 +678,16 @@ type schedStore struct {
 	tG    map[int]time.Time     // stamp right after GetCounts returned
 }
 
+var errStore = fmt.Errorf("store unavailable")
+
 func (s *schedStore) GetCounts(ctx context.Context, key string, w time.Duration) (int, int, int64, error) {
 	i := ctx.Value(ctxKey{}).(int)
+	if i == -1 { // noise request: the store fails on GetCounts
+		return 0, 0, 0, errStore
+	}
+	if i == -2 { // noise request: GetCounts works (on a throw-away key), Incr will fail
+		return s.inner.GetCounts(ctx, key, w)
+	}
 	op := opT{true, i}
 	<-s.turn[op]
 	c, p, ws, err := s.inner.GetCounts(ctx, key, w)
@@ -650,6 +702,9 @@ func (s *schedStore) GetCounts(ctx context.Context, key string, w time.Duration)
 
 func (s *schedStore) Incr(ctx context.Context, key string, w time.Duration) error {
 	i := ctx.Value(ctxKey{}).(int)
+	if i < 0 {
+		return errStore
+	}
 	op := opT{false, i}
 	<-s.turn[op]
 	err := s.inner.Incr(ctx, key, w)
@@ -951,7 +1006,11 @@ func (w *winCase) run(id string) (line string, discard string, nontrivial bool, 
 	r := router.MustNew()
 	r.Use(ratelimit.WithSlidingWindow(ratelimit.SlidingWindow{Window: window, Limit: w.Limit, Store: ss},
 		commonOpts(w.Headers, w.Enforce, w.Callback)))
-	r.GET("/", func(c *router.Context) { ran[c.Request.Context().Value(ctxKey{}).(int)] = true })
+	anyMethod(r, func(c *router.Context) {
+		if i := c.Request.Context().Value(ctxKey{}).(int); i >= 0 {
+			ran[i] = true
+		}
+	})
 
 	obs := make([]mwObs, n)
 	t1 := make([]time.Time, n)
@@ -984,6 +1043,10 @@ func (w *winCase) run(id string) (line string, discard string, nontrivial bool, 
 			if q.SleepMs > 0 {
 				time.Sleep(time.Duration(q.SleepMs) * time.Millisecond)
 			}
+			if q.ErrBefore != "" {
+				nctx := context.WithValue(context.Background(), ctxKey{}, map[string]int{"G": -1, "I": -2}[q.ErrBefore])
+				guard(func() { serveOnce(r, "other-client-whose-store-call-fails", nctx) })
+			}
 			if q.SleepToNextWindow {
 				next := time.Now().Truncate(window).Add(window).Add(time.Duration(q.OffsetMs) * time.Millisecond)
 				time.Sleep(time.Until(next))
@@ -997,7 +1060,7 @@ func (w *winCase) run(id string) (line string, discard string, nontrivial bool, 
 						panicked = true
 					}
 				}()
-				ctx := context.WithValue(context.Background(), ctxKey{}, i)
+				ctx := context.WithValue(context.WithValue(context.Background(), ctxKey{}, i), methodCtx{}, w.Method)
 				m, _ := serveOnce(r, w.Reqs[i].Key, ctx)
 				t1[i] = time.Now()
 				omu.Lock()
@@ -1028,8 +1091,11 @@ func (w *winCase) run(id string) (line string, discard string, nontrivial bool, 
 	for i := 0; i < n; i++ {
 		t0 := w.Reqs[i].now
 		g := ss.got[i]
-		tg := ss.tG[i].UnixNano()
 		te := t1[i].UnixNano()
+		tg := te // a request that never reached the store is judged on its completion stamp
+		if tgt, ok := ss.tG[i]; ok {
+			tg = tgt.UnixNano()
+		}
 		if !time.Unix(0, t0).Truncate(window).Equal(time.Unix(0, te).Truncate(window)) {
 			return "", "W.discarded_window_changed_during_request", false, false
 		}
@@ -1087,9 +1153,9 @@ func (w *winCase) run(id string) (line string, discard string, nontrivial bool, 
 
 // shape is the case without its wall-clock stamps (distinctness is counted on it).
 func (w *winCase) shape() string {
-	s := fmt.Sprintf("W %d %d %v %v %v %v %d %v %v", w.Limit, w.W, w.Headers, w.Enforce, w.Callback, w.DefaultStore, w.NoiseW, w.SharedStore, w.Stale)
+	s := fmt.Sprintf("W %s %d %d %v %v %v %v %d %v %v", w.Method, w.Limit, w.W, w.Headers, w.Enforce, w.Callback, w.DefaultStore, w.NoiseW, w.SharedStore, w.Stale)
 	for _, q := range w.Reqs {
-		s += fmt.Sprintf(" %s/%v/%d/%v/%v/%d", q.Key, q.SleepToNextWindow, q.RetryOf, q.Noise, q.NextSec, q.SleepMs/500)
+		s += fmt.Sprintf(" %s/%v/%d/%v/%v/%d/%s", q.Key, q.SleepToNextWindow, q.RetryOf, q.Noise, q.NextSec, q.SleepMs/500, q.ErrBefore)
 	}
 	return s + fmt.Sprint(w.Sched)
 }
@@ -1099,12 +1165,17 @@ func genWin(r *hx.Rand, rolling bool) *winCase {
 	kp := []string{"a", "b", "", "a "}
 	hx.Shuffle(r, kp)
 	keys := kp[:r.Range(1, 2)]
+	w.Method = pickMethod(r)
 	if !rolling {
 		// window lengths that do and do not divide 24 h (time.Truncate counts from Go's zero time)
 		w.W = hx.Pick(r, []int{3600, 3600, 420, 604800, 7, 11, 35 * 60})
 		n := r.Range(1, 9)
 		for i := 0; i < n; i++ {
-			w.Reqs = append(w.Reqs, winReq{Key: hx.Pick(r, keys)})
+			q := winReq{Key: hx.Pick(r, keys)}
+			if r.Chance(1, 10) {
+				q.ErrBefore = hx.Pick(r, []string{"G", "I"})
+			}
+			w.Reqs = append(w.Reqs, q)
 		}
 		if r.Chance(1, 2) {
 			w.Sched = serialSched(n)
@@ -1220,6 +1291,11 @@ func emitCase(id string, k *caseT, st *hx.Stats) string {
 			if 86400%k.Win.W != 0 {
 				st.Count("W.window_not_dividing_24h")
 			}
+			for _, q := range k.Win.Reqs {
+				if q.ErrBefore != "" {
+					st.Count("W.store_error_on_another_clients_request")
+				}
+			}
 		}
 		return line + hx.Comment(k)
 	}
@@ -1250,7 +1326,7 @@ func coldStart(id string, rate, burst, G int, viaNew bool) (line string, discard
 	} else {
 		r.Use(ratelimit.WithTokenBucket(ratelimit.TokenBucket{Rate: rate, Burst: burst}, commonOpts(true, true, false)))
 	}
-	r.GET("/", func(c *router.Context) { ran[c.Request.Context().Value(ctxK{}).(int)] = true })
+	anyMethod(r, func(c *router.Context) { ran[c.Request.Context().Value(ctxK{}).(int)] = true })
 	obs := make([]mwObs, G)
 	start := make(chan struct{})
 	var wg sync.WaitGroup
@@ -1465,6 +1541,7 @@ func main() {
 			case 5, 6:
 				g := newTraceGen(r)
 				k := &caseT{Kind: "M", Rate: g.rate, Burst: g.burst, Headers: !r.Chance(1, 6), Enforce: !r.Chance(1, 6), Callback: r.Chance(1, 8)}
+				k.Method = pickMethod(r)
 				if r.Chance(1, 8) {
 					k.ViaNew, k.Headers, k.Enforce, k.Callback = true, true, true, false
 					// leave options out: the documented defaults apply (rate 100/s, burst 20, key by client IP)
@@ -1477,6 +1554,8 @@ func main() {
 					k.OmitKey = r.Chance(1, 4)
 				} else if r.Chance(1, 60) {
 					k.Flood = 70000
+				} else if r.Chance(1, 10) {
+					k.OmitKey = true // WithTokenBucket with CommonOptions.Key == nil
 				}
 				nreq := r.Range(1, 25)
 				if k.ViaNew && k.OmitBurst {
